@@ -110,6 +110,20 @@ def cases(rng, tier, shard, nshards):
             yield dict(family=fam, tree=tree, singularity=sing, z0=z0, n=int(rng.integers(1, 14)), inner_n=int(rng.integers(1, 14)),
                        nested=True, r=None)
             continue
+        if rng.random() < 0.04:
+            # a lacunary series about z0 = 0 exactly: g(z^2), g(z^4), g(z^8) - most FFT bins hold nothing but rounding noise
+            p_ = int(rng.choice([2, 4, 4, 8]))
+            inner = ('powi', ('x',), p_)
+            g_ = int(rng.integers(0, 4))
+            tree_l = [('fn', 'cos', inner), ('fn', 'exp', inner), ('div', ('c', 1.0), ('add', ('c', float(rng.choice([2.0, 4.0]))), inner)),
+                      ('fn', 'cosh', inner)][g_]
+            sing_l = None
+            # (the expansion asked for reaches the first non-constant term: up to there the function *is* a constant, and being
+            # told so - "degenerate" - is what the flag is for)
+            deg1 = p_ * (2 if g_ in (0, 3) else 1)
+            yield dict(family='lacunary', tree=tree_l, singularity=sing_l, z0=[0.0, 0.0], n=int(rng.integers(deg1, 21)),
+                       r=None, step_ratio=None, num_extrap=None, via=str(rng.choice(['taylor', 'derivative', 'Taylor'])))
+            continue
         if rng.random() < 0.05:
             # a slowly varying function (its good radius is 20+ growth steps from the default one) with the iteration cap raised
             # explicitly, as the documentation suggests, and nothing else changed
